@@ -234,7 +234,10 @@ theorem c02_sack_direct_bytes {s : SackSt} {t : Nat} {p : Sent}
       .accept t s.cfg.target true p.time :=
   sack_direct_complete hl htg h1 h2 h3 hff hfr b1 b2 b3 b4 b5 hfl b6 b7 b8 hsize hlk
 
-/-- ICMP/IPv6, bytes: echo reply of the target -/
+/-- ICMP/IPv6, bytes: echo reply of the target.  In the three IPv6 theorems `ob1 ob2 ob3` (outer) and
+    `qb1 qb2 qb3` (quoted) range over ALL values of the 28 traffic-class / flow-label bits: the upper
+    nibble of the traffic class shares byte 0 with the version (`rawHdr6`: byte 0 = 0x60 + (b1/256)%16),
+    so a header whose DSCP was rewritten on the way (first byte 0x61..0x6f) is covered. -/
 theorem c02_icmp6_echo_bytes {s : IcmpSt} {t : Nat} {p : Sent}
     {ob1 ob2 ob3 ohop code ick : Nat} {body : Bytes}
     (hl : s.cfg.localA.length = 16) (htg : s.cfg.target.length = 16)
@@ -291,6 +294,17 @@ example :
       (rawHdr4 0 29 0x1234 0 1 1 0xabcd [192,0,2,2] [198,51,100,9] ++
         (([byte 8, byte 0] ++ be16 0 ++ be16 0x1234 ++ be16 3) ++ (List.replicate 100 0 ++ [0x20,0,0,0,0,8,1,1,0,0x3e,0x81,1])))) =
       .accept 3 [10,9,8,7] false 100 := by decide +kernel
+
+/-- non-vacuity for a re-marked quote (kernel evaluation): time-exceeded quoting our echo request whose
+    quoted traffic class was rewritten to CS6 (0xc0: first quoted byte 0x6c) is accepted for TTL 3 -/
+example :
+    let cfg : IcmpCfg := { localA := List.replicate 15 0 ++ [1], target := List.replicate 15 0 ++ [9], echoId := 0x1234, min := 1, max := 30 }
+    let st : IcmpSt := { cfg, sent := [{ ttl := 3, id := 0x1234, seq := 3, time := 100 }] }
+    (rawHdr6 0xc00 0 0 8 58 1 cfg.localA cfg.target).head? = some 0x6c ∧
+    icmpRecv st (icmpMsg6 0 0 0 250 (List.replicate 15 0 ++ [7]) cfg.localA 3 0 0 [0,0,0,0]
+      (rawHdr6 0xc00 0 0 8 58 1 cfg.localA cfg.target ++
+        (([byte 128, byte 0] ++ be16 0 ++ be16 0x1234 ++ be16 3) ++ []))) =
+      .accept 3 (List.replicate 15 0 ++ [7]) false 100 := by decide +kernel
 
 #print axioms c02_icmp4_te_bytes
 #print axioms c02_udp4_err_bytes
